@@ -464,10 +464,16 @@ type Authenticator struct {
 	Subkey    *EncryptionKey
 	SeqNumber *int64
 	AuthData  []AuthDataEntry
+	// CTimeZoneMin != 0: ctime is written as local time with this zone offset (minutes) instead of Z
+	CTimeZoneMin int
 }
 
 func (a Authenticator) EncBytes() []byte {
 	var ck, sk, sq []byte
+	ctime := der.GenTime(a.CTime)
+	if a.CTimeZoneMin != 0 {
+		ctime = der.GenTimeZone(a.CTime, a.CTimeZoneMin)
+	}
 	if a.Cksum != nil {
 		ck = der.Ctx(3, a.Cksum.Enc())
 	}
@@ -483,7 +489,7 @@ func (a Authenticator) EncBytes() []byte {
 		der.Ctx(2, a.CName.Enc()),
 		ck,
 		der.Ctx(4, der.Int(int64(a.Cusec))),
-		der.Ctx(5, der.GenTime(a.CTime)),
+		der.Ctx(5, ctime),
 		sk, sq,
 		der.Ctx(8, EncAuthData(a.AuthData)),
 	))
